@@ -456,6 +456,27 @@ func c11MonitorCrd(x c11XrdS, which string, crd *extv1.CustomResourceDefinition,
 		ors[0].Kind != v1.CompositeResourceDefinitionKind || ors[0].APIVersion != v1.SchemeGroupVersion.String() {
 		add("controller-ref", "owner references are not exactly one controller reference to the XRD")
 	}
+	if !specOnly {
+		// labels: the XRD's own overlaid with spec.metadata.labels; annotations: exactly spec.metadata.annotations
+		wantL, wantA := map[string]string{}, map[string]string{}
+		for k, v := range x.Labels {
+			wantL[k] = v
+		}
+		if x.HasMeta {
+			for k, v := range x.MetaLabels {
+				wantL[k] = v
+			}
+			for k, v := range x.MetaAnnotations {
+				wantA[k] = v
+			}
+		}
+		if !c11StrMapEq(crd.GetLabels(), wantL) {
+			add("labels-not-propagated", fmt.Sprintf("labels are %v, the XRD's labels overlaid with spec.metadata.labels are %v", crd.GetLabels(), wantL))
+		}
+		if !c11StrMapEq(crd.GetAnnotations(), wantA) {
+			add("labels-not-propagated", fmt.Sprintf("annotations are %v, spec.metadata.annotations are %v", crd.GetAnnotations(), wantA))
+		}
+	}
 	if len(crd.Spec.Versions) != len(x.Versions) {
 		add("version-lost", fmt.Sprintf("%d versions, XRD has %d", len(crd.Spec.Versions), len(x.Versions)))
 		return mons
@@ -710,6 +731,15 @@ func c11FillScn(s *c11Scn, nested bool) {
 		if s.Recon.ExtraAnnotations == nil {
 			s.Recon.ExtraAnnotations = map[string]string{}
 		}
+		if s.Recon.StoredConds == nil {
+			s.Recon.StoredConds = [][]string{{"Established", "True"}}
+		}
+		if s.Recon.StoredOwners == "" {
+			s.Recon.StoredOwners = "controller"
+		}
+		if s.Recon.Live && (s.Recon.Prev == nil || !c11Storable(func() c11XrdS { p := c11CloneXrd(*s.Recon.Prev); p.Name = s.Xrd.Name; return p }())) {
+			s.Recon.Live = false
+		}
 	}
 	if nested || s.More == nil {
 		s.More = []c11Scn{}
@@ -769,12 +799,14 @@ func c11RunStep(h *c11Hook, s c11Scn) (c11Obs, []Mon) {
 		// monitors look at a CRD derived from a fresh XRD object
 		if c, err := c11Derive(s.Xrd, "xr"); err == nil {
 			mons = append(mons, c11MonitorCrd(s.Xrd, "xr", c, false)...)
+			mons = append(mons, c11MonitorRaw(s.Xrd, "xr", c)...)
 		}
 	}
 	obs.Claim = c11CrdObs{Err: c11ErrClass(claimErr)}
 	if claimErr == nil && claim != nil {
 		obs.Claim.Crd = c11Project(claim)
 		mons = append(mons, c11MonitorCrd(s.Xrd, "claim", claim, false)...)
+		mons = append(mons, c11MonitorRaw(s.Xrd, "claim", claim)...)
 		if c11ClaimCollision(s.Xrd) {
 			mons = append(mons, Mon{Sig: "C11:claim-name-collision-accepted", Why: "claim names collide with the composite's names and a claim CRD was derived"})
 		}
